@@ -225,7 +225,15 @@ def pred_z3(where, row, params):
             conj.append(isnull); continue
         if op == 'notnull':
             conj.append(z3.Not(isnull)); continue
-        if rhs == '?' or re.fullmatch(r'\?\d+', rhs or ''):
+        if '@bind' in row and re.fullmatch(r'\?\d+', rhs or ''):
+            p = row['@bind'](int(rhs[1:]))             # the value bound at that position, resolved from the Rust-side parameter list
+            if isinstance(p, str) and p == 'unresolved':
+                p = ('lit', row['@assume'](col)) if (v is None and '@assume' in row) else None
+            if v is None and not isinstance(p, tuple):
+                raise S.SqlError(f'predicate compares the enumeration column {col} with a parameter the encoder cannot resolve')
+            if not isinstance(p, tuple) and (p is None or (z3.is_bv(p) and v is not None and z3.is_bv(v) and p.size() != v.size())):
+                p = z3.BitVec(f'param_{col}_{rhs[1:]}', v.size() if v is not None and z3.is_bv(v) else 64)
+        elif rhs == '?' or re.fullmatch(r'\?\d+', rhs or ''):
             p = params.pop(0) if params else None
             if v is None and not isinstance(p, tuple):
                 # an enumeration column compared with a bound parameter: the value bound is one of the literals, which one is taken from the '@assume' table
@@ -247,6 +255,81 @@ def pred_z3(where, row, params):
             e = {'=': v == p, '!=': v != p, '>': v > p, '>=': v >= p, '<': v < p, '<=': v <= p}[op]
         conj.append(z3.And(z3.Not(isnull), e))
     return z3.And(conj) if conj else z3.BoolVal(True)
+
+
+STATE_LITERALS = ['created', 'processed', 'processed_commit', 'failed', 'epoch_invalidated', 'retryable', 'pending', 'accepted', 'declined', 'another']
+
+
+def numbered(sql):
+    """every bare `?` becomes `?k` (k = its 1-based position among the placeholders, SQLite's own numbering rule); explicit `?N` is kept"""
+    k = [0]
+
+    def f(m):
+        if m.group(1):
+            k[0] = max(k[0], int(m.group(1)))
+            return m.group(0)
+        k[0] += 1
+        return f'?{k[0]}'
+    return re.sub(r'\?(\d*)', f, sql)
+
+
+def bound_exprs(rel, fn, sql):
+    """the Rust expressions bound to the statement's placeholders (params![..] or a plain array after the SQL literal); None if not found"""
+    from sqlsym import writes as W
+    body = S.fn_body(S.source(rel), fn)
+    try:
+        return W.params_after(body, sql)
+    except S.SqlError:
+        pass
+    flat = re.sub(r'\s+', ' ', re.sub(r'//[^\n]*', '', re.sub(r'\\\n\s*', '', body)))
+    i = flat.find(re.sub(r'\s+', ' ', sql)[:40])
+    if i < 0:
+        return None
+    m = re.search(r'"\s*,?\s*\)?\s*(?:\.\w+\()?\s*\[([^\]]*)\]', flat[i:])
+    return [x.strip() for x in S.split_top(m.group(1))] if m else None
+
+
+def decide_pred(sol, rel, fn, stmt, row, contract, roles, dom=()):
+    """'equal' | 'differs' | 'unresolved' (+ model): the statement's WHERE, with every placeholder resolved to the value the Rust code binds there
+    (a role variable of the contract, a string literal, or -- for an enumeration column whose bound value is not a literal in the source -- each candidate literal in turn)"""
+    text = numbered(stmt.text)
+    st2 = S.parse_stmt(text)
+    exprs = bound_exprs(rel, fn, stmt.text)
+    unresolved_enum = [False]
+
+    def bind(n):
+        if exprs is None or n - 1 >= len(exprs):
+            # binding list not found: positional fallback over the contract's parameters (first placeholder = first role ...)
+            vals = list(roles.values())
+            return vals[n - 1] if n - 1 < len(vals) else None
+        x = exprs[n - 1].strip().lstrip('&').strip()
+        m = re.fullmatch(r'"([^"]*)"(?:\.to_string\(\)|\.to_owned\(\))?', x)
+        if m:
+            return ('lit', m.group(1))
+        for key, pat in (('g', r'group_id'), ('w', r'event_id|wrapper'), ('e', r'\bepoch\b')):
+            if key in roles and re.search(pat, x):
+                return roles[key]
+        if re.search(r'as_str\(\)|state|State', x):
+            unresolved_enum[0] = True
+            return 'unresolved'
+        return None
+    row['@bind'] = bind
+    out = []
+    try:
+        for cand in STATE_LITERALS:
+            row['@assume'] = lambda col, cand=cand: cand
+            pz = pred_z3(st2.where or [], row, [])
+            sat, m = sol.check(list(dom) + [pz != contract])
+            out.append((sat, m))
+            if not unresolved_enum[0]:
+                break
+    finally:
+        row.pop('@bind', None); row.pop('@assume', None)
+    if all(x[0] for x in out):
+        return 'differs', out[0][1]
+    if len(out) == 1 or not any(x[0] for x in out):
+        return 'equal', None
+    return 'unresolved', None
 
 
 def o3(tier):
@@ -275,12 +358,12 @@ def o3(tier):
         upd = [s for s in prog if s.kind == 'UPDATE']
         if len(sel) != 1 or len(upd) != 1 or sel[0].table != table or upd[0].table != table:
             r.fail(f'O3/{fn}/shape', f'{fn}: expected one SELECT and one UPDATE on {table}'); continue
-        ps = pred_z3(sel[0].where, row, [g, e])
-        pu = pred_z3(upd[0].where, row, [g, e])
-        for nm, p in (('select', ps), ('update', pu)):
+        for nm, stmt_ in (('select', sel[0]), ('update', upd[0])):
             cases += 1
-            sat, m = sol.check(dom + [p != contract_inval])
-            if sat:
+            verdict_, m = decide_pred(sol, 'messages.rs', fn, stmt_, row, contract_inval, {'g': g, 'e': e}, dom)
+            if verdict_ == 'unresolved':
+                r.broken(f'{fn}: a bound parameter of the {nm.upper()} is not resolved by the encoder')
+            if verdict_ == 'differs':
                 r.fail(f'O3/{fn}/{nm}-predicate', f'SQLite {fn}: the {nm.upper()} selects "{(sel[0] if nm == "select" else upd[0]).text.split("WHERE")[1].strip()}", not exactly the rows of the group with epoch > e '
                        f'(differs at row epoch={"NULL" if z3.is_true(m.eval(row["epoch"][1], True)) else m.eval(row["epoch"][0], True)}, e={m.eval(e, True)})')
         if upd[0].sets.get('state', '').strip("'") != 'epoch_invalidated' or set(upd[0].sets) != {'state'}:
@@ -291,42 +374,41 @@ def o3(tier):
     if len(sel) == 1:
         contract = z3.And(z3.Not(row['mls_group_id'][1]), row['mls_group_id'][0] == g, lit('state', 'failed'), row['epoch'][1])
         cases += 1
-        # a state bound as a parameter is one of the state literals: the predicate must equal the contract for the literal actually bound; when that literal is not
-        # resolved from the source, a violation is only reported if the predicate differs from the contract for EVERY literal
-        differs = []
-        for cand in ['created', 'processed', 'processed_commit', 'failed', 'epoch_invalidated', 'retryable', 'another']:
-            row['@assume'] = lambda col, cand=cand: cand
-            p = pred_z3(sel[0].where, row, [g])
-            sat, m = sol.check([p != contract])
-            differs.append(sat)
-            if not any(isinstance(c, tuple) and len(c) == 3 and c[0] == 'state' and str(c[2]).startswith('?') for c in sel[0].where):
-                break
-        row.pop('@assume', None)
-        if all(differs):
-            r.fail('O3/find_failed_messages_for_retry/predicate', f'retry candidates are selected by "{sel[0].text.split("WHERE")[1].strip()}", not (group, state failed, epoch NULL): '
-                   'a comparison `epoch = ?` is never true for a NULL epoch, whatever is bound')
-        elif len(differs) > 1:
+        verdict_, m = decide_pred(sol, 'messages.rs', 'find_failed_messages_for_retry', sel[0], row, contract, {'g': g})
+        if verdict_ == 'differs':
+            r.fail('O3/find_failed_messages_for_retry/predicate', f'retry candidates are selected by "{sel[0].text.split("WHERE")[1].strip()}", not (group, state failed, epoch NULL) '
+                   '(a comparison `epoch = ?` is never true for a NULL epoch, whatever is bound)')
+        elif verdict_ == 'unresolved':
             r.broken('find_failed_messages_for_retry binds the state as a parameter; the bound value is not resolved by the encoder')
     else:
         r.fail('O3/find_failed_messages_for_retry/shape', 'expected one SELECT')
     prog = [S.parse_stmt(x) for x in S.program('messages.rs', 'mark_processed_message_retryable')]
     upd = [s for s in prog if s.kind == 'UPDATE']
     if len(upd) == 1:
-        p = pred_z3(upd[0].where, row, [w])
         contract = z3.And(row['wrapper_event_id'][0] == w, lit('state', 'failed'))
         cases += 1
-        sat, m = sol.check([p != contract])
-        if sat or upd[0].sets.get('state', '').strip("'") != 'retryable':
+        verdict_, m = decide_pred(sol, 'messages.rs', 'mark_processed_message_retryable', upd[0], row, contract, {'w': w})
+        if verdict_ == 'unresolved':
+            r.broken('mark_processed_message_retryable: a bound parameter is not resolved by the encoder')
+        sat = verdict_ == 'differs'
+        set_state = upd[0].sets.get('state', '').strip()
+        if re.fullmatch(r'\?\d*', set_state):
+            ex_ = bound_exprs('messages.rs', 'mark_processed_message_retryable', upd[0].text) or []
+            k_ = int(set_state[1:]) if len(set_state) > 1 else 1
+            mm_ = re.fullmatch(r'"([^"]*)"', ex_[k_ - 1].strip()) if k_ - 1 < len(ex_) else None
+            set_state = "'" + mm_.group(1) + "'" if mm_ else set_state
+        if sat or set_state.strip("'") != 'retryable':
             r.fail('O3/mark_processed_message_retryable/predicate', f'retry marking updates "{upd[0].text}"')
     else:
         r.fail('O3/mark_processed_message_retryable/shape', 'expected one UPDATE')
     prog = [S.parse_stmt(x) for x in S.program('welcomes.rs', 'pending_welcomes')]
     sel = [s for s in prog if s.kind == 'SELECT']
     if len(sel) == 1:
-        p = pred_z3(sel[0].where, row, [])
         cases += 1
-        sat, m = sol.check([p != lit('state', 'pending')])
-        if sat:
+        verdict_, m = decide_pred(sol, 'welcomes.rs', 'pending_welcomes', sel[0], row, lit('state', 'pending'), {})
+        if verdict_ == 'unresolved':
+            r.broken('pending_welcomes binds the state as a parameter; the bound value is not resolved by the encoder')
+        if verdict_ == 'differs':
             r.fail('O3/pending_welcomes/predicate', f'pending welcomes are selected by "{sel[0].text}"')
     # epoch hint lookup (used to find the epoch a media file was announced in): scoped to the group, epoch NOT NULL
     prog = [S.parse_stmt(x) for x in S.program('messages.rs', 'find_message_epoch_by_tag_content')]
@@ -336,7 +418,7 @@ def o3(tier):
         r.fail('O3/find_message_epoch_by_tag_content/shape', 'expected one SELECT on messages')
     else:
         cols = {c[0]: c for c in sel[0].where if c[0] != 'or'}
-        if not ('mls_group_id' in cols and cols['mls_group_id'][1] == '=' and cols['mls_group_id'][2] == '?'):
+        if not ('mls_group_id' in cols and cols['mls_group_id'][1] == '=' and str(cols['mls_group_id'][2]).startswith('?')):
             r.fail('O3/find_message_epoch_by_tag_content/not-group-scoped', f'the epoch-hint lookup is not restricted to the asking group ("{sel[0].text.split("WHERE")[1].strip()[:90]}"): '
                    'a message of ANOTHER group with the same tag content decides the epoch (wrong media key after the group advances)')
         if not ('epoch' in cols and cols['epoch'][1] == 'notnull'):
